@@ -118,7 +118,7 @@ structure Module where
 abbrev Program := List Module
 
 /-- The type recorded for an expression (`AnalyzedExpression.Type()`). -/
-partial def Expr.ty : Expr → Ty
+def Expr.ty : Expr → Ty
   | .int .. => .int
   | .float .. => .float
   | .bool .. => .bool
